@@ -1130,11 +1130,11 @@ theorem frw_beginTail (bb : List UInt8) (sc : Scanner) :
       (do
         modS (fun s => { s with eexec := if (!bb.all isHexDigit) = true then 2 else 1, r := Cipher.eexecR, regurgitate := true })
         skipIV 4
-        modS (fun s => { s with regurgitate := false }))
+        modS (fun s => { s with regurgitate := false, col := 0, crSeen := false }))
       (do
         modS (fun s => { s with eexec := if (!bb.all isHexDigit) = true then 2 else 1, r := Cipher.eexecR, regurgitate := true })
         skipIV 4
-        modS (fun s => { s with regurgitate := false })) sc := by
+        modS (fun s => { s with regurgitate := false, col := 0, crSeen := false })) sc := by
   refine FrW.bind (FrW.modS _ _ ⟨rfl, rfl⟩) ?_
   intro _ sc1
   refine FrW.bind (FrAt.weak (fr_skipIV 4 sc1)) ?_
